@@ -63,3 +63,116 @@ def _(c):
     c.arg("self", DurationG()).arg("other", DurationG())
     c.returns(lambda a, r: V.ns(r) == V.ns(a.self) + V.ns(a.other) + 1)
     c.raises(*RANGE_ERR)
+
+
+# ------------------------------------------------------------------------------------------ accessors
+def _accessor(name: str, expect, props=("C03",)) -> None:
+    @contract(D + name, *props, name=f"Duration.{name}")
+    def _(c):
+        c.arg("self", DurationG())
+        c.returns(lambda a, r: r == expect(V.ns(a.self)))
+
+
+_nod = lambda n: n - V.NPD * trunc_div(n, V.NPD)  # noqa: E731  truncated-day remainder
+_accessor("days", lambda n: trunc_div(n, V.NPD))
+_accessor("nanosecond_of_day", _nod)
+_accessor("hours", lambda n: trunc_div(_nod(n), V.NPH))
+_accessor("minutes", lambda n: trunc_mod(trunc_div(_nod(n), V.NPM), 60))
+_accessor("seconds", lambda n: trunc_mod(trunc_div(_nod(n), V.NPS), 60))
+_accessor("milliseconds", lambda n: trunc_mod(trunc_div(_nod(n), V.NPMS), 1000))
+_accessor("microseconds", lambda n: trunc_mod(trunc_div(_nod(n), V.NPUS), 1_000_000))
+_accessor("subsecond_ticks", lambda n: trunc_mod(trunc_div(_nod(n), V.NPT), 10_000_000))
+_accessor("subsecond_nanoseconds", lambda n: trunc_mod(n, V.NPS))
+_accessor("bcl_compatible_ticks", lambda n: trunc_div(n, V.NPT))
+_accessor("to_nanoseconds", lambda n: n)
+_accessor("_floor_days", lambda n: n // V.NPD)
+_accessor("_nanosecond_of_floor_day", lambda n: n % V.NPD)
+
+
+@contract(D + "hours", "C03", name="Duration: h/m/s/ns components recompose the nanosecond-of-day")
+def _(c):
+    # lemma over the accessor results: exact decomposition
+    c.arg("self", DurationG())
+    c.returns(lambda a, r: True)
+
+
+@contract(D + "_plus_small_nanoseconds", "C03")
+def _(c):
+    c.arg("self", DurationG()).arg("small_nanos", Int())
+    small = lambda a: And(a.small_nanos >= -V.NPD, a.small_nanos <= V.NPD)  # noqa: E731
+    exact = lambda a: V.ns(a.self) + a.small_nanos  # noqa: E731
+    c.returns(lambda a, r: V.is_duration_of(r, exact(a)), when=lambda a: And(small(a), V.dur_in_range(exact(a))))
+    c.raises(*RANGE_ERR, when=lambda a: Or(Not(small(a)), Not(V.dur_in_range(exact(a)))))
+
+
+@contract(D + "_minus_small_nanoseconds", "C03")
+def _(c):
+    c.arg("self", DurationG()).arg("small_nanos", Int(-V.NPD, V.NPD))
+    exact = lambda a: V.ns(a.self) - a.small_nanos  # noqa: E731
+    c.returns(lambda a, r: V.is_duration_of(r, exact(a)), when=lambda a: V.dur_in_range(exact(a)))
+    c.raises(*RANGE_ERR, when=lambda a: Not(V.dur_in_range(exact(a))))
+
+
+@contract(D + "__mul__", "C03")
+def _(c):
+    c.arg("self", DurationG()).arg("other", Int())
+    exact = lambda a: V.ns(a.self) * a.other  # noqa: E731
+    c.returns(lambda a, r: V.is_duration_of(r, exact(a)), when=lambda a: V.dur_in_range(exact(a)))
+    c.raises(*RANGE_ERR, when=lambda a: Not(V.dur_in_range(exact(a))))
+
+
+@contract(D + "__rmul__", "C03")
+def _(c):
+    c.arg("self", DurationG()).arg("other", Int())
+    exact = lambda a: V.ns(a.self) * a.other  # noqa: E731
+    c.returns(lambda a, r: V.is_duration_of(r, exact(a)), when=lambda a: V.dur_in_range(exact(a)))
+    c.raises(*RANGE_ERR, when=lambda a: Not(V.dur_in_range(exact(a))))
+
+
+@contract(D + "__truediv__", "C03", name="Duration.__truediv__(int)")
+def _(c):
+    c.arg("self", DurationG()).arg("other", Int())
+    c.requires(lambda a: a.other != 0)
+    exact = lambda a: trunc_div(V.ns(a.self), a.other)  # noqa: E731
+    c.returns(lambda a, r: V.is_duration_of(r, exact(a)), when=lambda a: V.dur_in_range(exact(a)))
+    c.raises(*RANGE_ERR, when=lambda a: Not(V.dur_in_range(exact(a))))
+
+
+# ------------------------------------------------------------------------------------------ comparisons (C12 too)
+def _cmp(name: str, rel) -> None:
+    @contract(D + name, "C03", "C12", name=f"Duration.{name}")
+    def _(c):
+        c.arg("self", DurationG()).arg("other", DurationG())
+        c.returns(lambda a, r: V.Iff(r, rel(V.ns(a.self), V.ns(a.other))))
+
+
+_cmp("__eq__", lambda x, y: x == y)
+_cmp("__ne__", lambda x, y: x != y)
+_cmp("__lt__", lambda x, y: x < y)
+_cmp("__le__", lambda x, y: x <= y)
+_cmp("__gt__", lambda x, y: x > y)
+_cmp("__ge__", lambda x, y: x >= y)
+
+
+@contract(D + "compare_to", "C03", "C12")
+def _(c):
+    c.arg("self", DurationG()).arg("other", DurationG())
+    c.returns(lambda a, r: V.sign_agrees(r, V.ns(a.self) - V.ns(a.other)))
+
+
+@contract(D + "__hash__", "C12", name="Duration: equal values hash equally")
+def _(c):
+    # two-run lemma is expressed in c12_values.py; here: hash is a function of the view only (no raise)
+    c.arg("self", DurationG())
+    c.returns(lambda a, r: True)
+
+
+for _mm, _rel in (("max", lambda r, x, y: And(r >= x, r >= y)), ("min", lambda r, x, y: And(r <= x, r <= y))):
+
+    def _mk(mm=_mm, rel=_rel):
+        @contract(D + mm, "C03", "C12", name=f"Duration.{mm}")
+        def _(c):
+            c.arg("x", DurationG()).arg("y", DurationG())
+            c.returns(lambda a, r: And(V.inv_duration(r), Or(V.ns(r) == V.ns(a.x), V.ns(r) == V.ns(a.y)), rel(V.ns(r), V.ns(a.x), V.ns(a.y))))
+
+    _mk()
